@@ -24,6 +24,6 @@ PY
 )
 python3 tools/extract_tables.py $OUT lean/ChessVerif/Gen
 cd lean
-PROPS=$(python3 -c "import json;print(' '.join(v['module'] for v in json.load(open('props.json')).values()))")
+PROPS=$(python3 -c "import json;print(' '.join(m for v in json.load(open('props.json')).values() for m in v['modules']))")
 lake build driver $PROPS
 echo "setup done"
